@@ -116,7 +116,7 @@ func c17Ref(a, b c17Item) bool {
 func init() {
 	engine.Register(&engine.Check{
 		ID: "C17", Name: "timestamp-order", Level: "model_checking",
-		Rule: "every ordered pair and triple of the item grid (9 instants^2 on *Object - zero, three dates, a zone variant, +1ns, 1969, the epoch, year 2300 -, view types, nil, typed nil) is one case; " +
+		Rule: "every ordered pair and triple of the item grid (equal deciding instants with four different ids and types; 9 instants^2 on *Object - zero, three dates, a zone variant, +1ns, 1969, the epoch, year 2300 -, view types, nil, typed nil) is one case; " +
 			"every permutation of every 5-subset of 7 distinct-key items and of a 6-set with ties is one sort case; " +
 			"non-trivial = pair with two non-nil items or a sort of >=5 items",
 		Assumptions: []string{"sort.Slice is correct for a strict weak order", "reading D9 of DESIGN.md: domain = object struct types and nil"},
